@@ -16,8 +16,8 @@ All theorems are for every script of draws / operation results / `check_move` ve
 * `template_untouched` — the exchange template is never modified;
 * `not_accepted_keeps_labels` — a rejected or failed trial changes no label and not the counter.
 
-Known finding (kept as a theorem): a *composite* insertion of several particles gives all of them ONE label
-(`composite_insertion_shares_label`).
+A *composite* insertion of several particles used to give all of them ONE label (`composite_insertion_shares_label_pinned`);
+the driver now notifies once per inserted particle (`composite_insertion_distinct_labels`).
 -/
 namespace MM
 
@@ -44,7 +44,9 @@ theorem labels_aligned_after_accept (sim : Sim) (he : sim.ens = .grand) (r : Nat
   -- the state after `save_state`
   have hsave : (saveState sim s1).atoms = s1.atoms ∧
       (saveState sim s1).heap = notifyRefs (tableRefs sim) s1.ctx.addedIdx s1.ctx.deletedIdx s1.heap := by
-    simp [saveState, he, ctxSave, tableRefs]
+    have hsz : s1.ctx.addedSizes.length ≤ 1 := by
+      rw [← hs1]; exact exchCall_sizes_le r s hinv.fixedOK hinv.noSizes
+    simp [saveState, he, ctxSave, tableRefs, notifyParts_short _ _ _ _ _ hsz]
   intro r' hr' hlt hlb
   have hnd : (tableRefs sim).Nodup := nodup_eraseDups' _
   have hlen : (saveState sim s1).heap.length = s1.heap.length := by
@@ -219,8 +221,11 @@ theorem ginv_trial (sim : Sim) (he : sim.ens = .grand) (r : Nat) (v : Bool) (s :
         have := congrArg Ctx.deletedAtoms hcore; simpa [ctxCore] using this
       have hsv : s1.ctx.savedFixed = s.ctx.savedFixed := by
         have := congrArg Ctx.savedFixed hcore; simpa [ctxCore] using this
+      have hszc : s1.ctx.addedSizes = s.ctx.addedSizes := by
+        have := congrArg Ctx.addedSizes hcore; simpa [ctxCore] using this
       refine ⟨⟨⟨by rw [hlp, hat]; exact h.invg.lastPos, ha, hd, by rw [hda]; exact h.invg.noDeletedAtoms,
-                by rw [hsv]; exact h.invg.noSaved, by rw [hat]; exact h.invg.fixedOK⟩,
+                by rw [hsv]; exact h.invg.noSaved, by rw [hat]; exact h.invg.fixedOK,
+                by rw [hszc]; exact h.invg.noSizes⟩,
                by rw [hdelta]; exact h.delta0, ?_, by rw [htm]; exact h.templ⟩, ?_⟩
       · intro r' hr' hlt hlb
         have hst := hheap.2 r'
@@ -243,7 +248,7 @@ theorem ginv_trial (sim : Sim) (he : sim.ens = .grand) (r : Nat) (v : Bool) (s :
         | deleted l _ _ _ _ _ hlp => exact hlp
       have hheapR : (revertState sim s1).heap = s1.heap := revertState_shape sim s1
       refine ⟨⟨⟨?_, by simp [revertState, he], by simp [revertState, he], by simp [revertState, he],
-                by simp [revertState, he], by rw [hat]; exact h.invg.fixedOK⟩,
+                by simp [revertState, he], by rw [hat]; exact h.invg.fixedOK, by simp [revertState, he]⟩,
                by simp [revertState, he], ?_, by simp [revertState, he, htm]; exact h.templ⟩, ?_⟩
       · rw [hat]
         have : (revertState sim s1).ctx.lastPos = s1.ctx.lastPos := by simp [revertState, he]
@@ -310,7 +315,8 @@ theorem ginv_trial (sim : Sim) (he : sim.ens = .grand) (r : Nat) (v : Bool) (s :
             have h1 : ¬ s1.atoms.rows.length > s.atoms.rows.length := by omega
             have h2 : s1.atoms.rows.length < s.atoms.rows.length := by omega
             simp [h1, h2]
-      refine ⟨⟨⟨by rw [c1, hsa], c2, c3, c4, c5, by rw [hsa]; exact hfx.1⟩, c6, hal,
+      have c9 : (saveState sim s1).ctx.addedSizes = [] := by simp [saveState, he, ctxSave]
+      refine ⟨⟨⟨by rw [c1, hsa], c2, c3, c4, c5, by rw [hsa]; exact hfx.1, c9⟩, c6, hal,
                by rw [c7, htm]; exact h.templ⟩, ?_⟩
       rw [c8, hnx, hfx.2]
 
@@ -348,7 +354,7 @@ theorem gc_history (sim : Sim) (he : sim.ens = .grand) (ts : List XTrial) (s : S
   | nil => exact ⟨h, by simp [runX, netChange]⟩
   | cons t ts ih =>
     obtain ⟨hk, hmem, hlt, hrest⟩ := hok
-    have h' : GInv sim ({ s with inp := t.inp } : State) := ⟨⟨h.invg.1, h.invg.2, h.invg.3, h.invg.4, h.invg.5, h.invg.6⟩,
+    have h' : GInv sim ({ s with inp := t.inp } : State) := ⟨⟨h.invg.1, h.invg.2, h.invg.3, h.invg.4, h.invg.5, h.invg.6, h.invg.7⟩,
       h.delta0, h.aligned, h.templ⟩
     have hrl : (s.obj t.r).labels.length = s.atoms.rows.length :=
       h.aligned t.r hmem hlt (by simp [labelBearing, hk])
@@ -393,16 +399,32 @@ example : netChange c5Sim c5History (c5State 500) = 0 ∧
     ((runX c5Sim c5History (c5State 500)).heap.map (·.labels.length)) = [3, 3] ∧
     (runX c5Sim c5History (c5State 500)).atoms.rows.length = 3 := by decide
 
-/-- **known finding, as a theorem**: a composite insertion of two particles labels both with ONE label. -/
-theorem composite_insertion_shares_label :
-    ∃ (sim : Sim) (s : State), sim.ens = .grand ∧ InvG s ∧
-      ((trial sim (.compExch [0, 0] 1000) true s).2.obj 0).labels = [0, 1, 2, 2] := by
-  refine ⟨{ ens := .grand, table := [{ name := "x", oid := 0, tree := .compExch [0, 0] 1000 }] },
-    { atoms := { rows := [⟨(0,0,0), (0,0,0), [29]⟩, ⟨(2,0,0), (0,0,0), [29]⟩], cell := (9,9,9), fixed := none },
-      heap := [{ kind := .exch, labels := [0, 1] }],
-      ctx := { lastPos := [(0,0,0), (2,0,0)], template := [⟨(1,1,1), (0,0,0), [1]⟩] },
-      inp := { draws := [0], ops := [(1,2,3), (3,2,1)], checks := [true, true] } }, rfl, ?_, ?_⟩
-  · constructor <;> simp [positions, FixedOK]
+/-- the flat notification of before the repair "one notification per inserted particle" -/
+def saveStatePinned (sim : Sim) (s : State) : State :=
+  match sim.ens with
+  | .grand =>
+    let refs := ((sim.table.map (fun e => e.tree.refs)).flatten).eraseDups
+    ctxSave .grand { s with heap := notifyRefs refs s.ctx.addedIdx s.ctx.deletedIdx s.heap }
+  | _ => saveState sim s
+
+def c5Comp : Sim := { ens := .grand, table := [{ name := "x", oid := 0, tree := .compExch [0, 0] 1000 }] }
+def c5CompState : State :=
+  { atoms := { rows := [⟨(0,0,0), (0,0,0), [29]⟩, ⟨(2,0,0), (0,0,0), [29]⟩], cell := (9,9,9), fixed := none },
+    heap := [{ kind := .exch, labels := [0, 1] }],
+    ctx := { lastPos := [(0,0,0), (2,0,0)], template := [⟨(1,1,1), (0,0,0), [1]⟩] },
+    inp := { draws := [0], ops := [(1,2,3), (3,2,1)], checks := [true, true] } }
+
+/-- **composite_insertion_distinct_labels**: the two particles of an accepted composite insertion get two labels -/
+theorem composite_insertion_distinct_labels :
+    c5Comp.ens = .grand ∧ InvG c5CompState ∧
+      ((trial c5Comp (.compExch [0, 0] 1000) true c5CompState).2.obj 0).labels = [0, 1, 2, 3] := by
+  refine ⟨rfl, ?_, ?_⟩
+  · constructor <;> simp [c5CompState, positions, FixedOK]
   · decide
+
+/-- pinned (before the repair): one flat notification labelled both with ONE label -/
+theorem composite_insertion_shares_label_pinned :
+    ((saveStatePinned c5Comp (callTree (.compExch [0, 0] 1000) c5CompState).2).obj 0).labels = [0, 1, 2, 2] := by
+  decide
 
 end MM
